@@ -202,9 +202,9 @@ def run(ctx):
         ctx.violation(key, what, case)
     ctx.count(4)
     if thorough:
-        run_fit(ctx, 'f_3', 3, 3, cat='Cat3', trainmax=3, rset='R123', thin_1=1, thin_t=11, pats='Pat3', opt_every=40)
-        run_fit(ctx, 'f_4_r1', 3, 4, cat='Cat4', trainmax=2, rset='R1', thin_r=1, pats='Pat4', opt_every=60)
-        run_fit(ctx, 'f_4_r23', 3, 4, cat='Cat4', trainmax=2, rset='R123', thin_r=7, thin_1=1, thin_t=7, pats='Pat4', opt_every=60)
+        run_fit(ctx, 'f_3', 3, 3, cat='Cat3', trainmax=3, rset='R123', thin_1=2, thin_t=401, pats='Pat3', opt_every=25)
+        run_fit(ctx, 'f_4_r1', 3, 4, cat='Cat4', trainmax=2, rset='R1', thin_r=1, thin_1=29, pats='Pat4', opt_every=25)
+        run_fit(ctx, 'f_4_r23', 3, 4, cat='Cat4', trainmax=2, rset='R23', thin_r=13, thin_t=499, pats='Pat4', opt_every=25)
         run_lin(ctx, 'lin_3', 3, 3, cat='Cat3', lingrid=2)
         run_lin(ctx, 'lin_4', 3, 4, cat='Cat4', lingrid=1)
     else:
